@@ -21,6 +21,7 @@ try:
             print('   ', (ob.get('detail') or '')[-1200:])
         if ob['status'] == 'refuted' and '--playback' in sys.argv:
             kani_run.playback(ws, cfg, h, ob)
-            print(json.dumps(ob.get('witness'), indent=1)[:4000])
+            print(json.dumps(ob.get('witness'), indent=1)[:6000])
+            print('    after playback:', (ob.get('detail') or '')[-600:], flush=True)
 finally:
     shutil.rmtree(root, ignore_errors=True)
